@@ -1095,3 +1095,120 @@ Example keys_injective_nv :
   q1 <> q2 /\ wf_question q1 = true /\ wf_question q2 = true /\ guard q1 = true /\ guard q2 = true /\
   wrapper_key q1 = wrapper_key q2 /\ subject_of q1 = subject_of q2.
 Proof. repeat split; try reflexivity. discriminate. Qed.
+
+(* ================= several wrapper objects ================= *)
+Lemma mrun_app m a b : mrun m (a ++ b) = match mrun m a with Some m' => mrun m' b | None => None end.
+Proof. revert m; induction a as [|e a IH]; intros m; simpl; [reflexivity|]. destruct (mstep m e); [apply IH | reflexivity]. Qed.
+
+Lemma project_app a tr1 tr2 : project a (tr1 ++ tr2) = project a tr1 ++ project a tr2.
+Proof.
+  induction tr1 as [|[b e] tr1 IH]; simpl; [reflexivity|].
+  destruct (Nat.eqb b a); simpl; rewrite IH; reflexivity.
+Qed.
+
+(* Each wrapper object's state is a run of the single-wrapper LTS on exactly the events that
+   happened at that object: wrapper objects are independent, nothing one does reaches another. *)
+Theorem mreach_project tr m : mreach tr m -> forall a, wrun winit (project a tr) = Some (component m a).
+Proof.
+  revert m. induction tr as [|[b e] tr IH] using rev_ind; intros m H a.
+  - unfold mreach in H. simpl in H. inversion H; subst. reflexivity.
+  - unfold mreach in H. rewrite mrun_app in H. destruct (mrun [] tr) as [m0|] eqn:E0; [|discriminate].
+    simpl in H. unfold mstep in H. cbn [fst snd] in H.
+    destruct (wstep (component m0 b) e) as [w'|] eqn:Ew; [|discriminate]. inversion H; subst m. clear H.
+    rewrite project_app, wrun_app, (IH m0 E0 a). simpl. unfold component at 2. cbn [alookup].
+    nateq a b.
+    + rewrite Nat.eqb_refl. simpl. rewrite Ew. reflexivity.
+    + apply not_eq_sym in E. apply Nat.eqb_neq in E. rewrite E. simpl. reflexivity.
+Qed.
+
+Lemma in_project a tr e : In e (project a tr) <-> In (a, e) tr.
+Proof.
+  induction tr as [|[b e'] tr IH]; simpl; [tauto|]. nateq b a.
+  - simpl. rewrite IH. split; intros [H|H]; auto; [left; congruence | inversion H; auto].
+  - rewrite IH. split; [auto|]. intros [H|H]; [inversion H; contradiction | exact H].
+Qed.
+
+(* a wrapper object knows only the callers that called IT: callers of distinct wrapper objects
+   never share a call *)
+Theorem wrapper_knows_only_its_callers tr m a t :
+  mreach tr m -> thread (w_g (component m a)) t <> None -> exists q, In (a, WEnter t q) tr.
+Proof.
+  intros H Ht. pose proof (mreach_project _ _ H a) as Hw.
+  pose proof (reach_tinv _ _ (wreach_erase _ _ Hw)) as T.
+  destruct (ti_entered _ _ T _ Ht) as [k Hk]. apply in_erase_enter in Hk as [q [Hin _]].
+  exists q. apply in_project. exact Hin.
+Qed.
+
+(* ================= the key and the allowed groups ================= *)
+(* the composite key of the proxy's ValidateSessionState / RefreshSession ignores the allowed
+   groups argument although the inner provider's answer depends on it *)
+Theorem keys_ignore_allowed_groups e s al1 al2 :
+  wrapper_key (QSession e s al1) = wrapper_key (QSession e s al2) /\
+  subject_of (QSession e s al1) = subject_of (QSession e s al2).
+Proof. split; reflexivity. Qed.
+
+Definition gT : str := [116].
+Theorem allowed_groups_not_in_key_refuted :
+  exists q1 q2, wf_question q1 = true /\ wf_question q2 = true /\ guard q1 = true /\ guard q2 = true /\
+    wrapper_key q1 = wrapper_key q2 /\ allowed_of q1 <> allowed_of q2.
+Proof.
+  exists (QSession PValidate w_session [[bA]]), (QSession PValidate w_session [[bB]]).
+  repeat split; try reflexivity. vm_compute. discriminate.
+Qed.
+
+(* in a deployment-shaped run — every question put to a wrapper object carries that object's
+   allowed groups, as proxy.New arranges (one wrapper object per upstream, oauthproxy.go:619) —
+   callers that share an execution asked about the same subject INCLUDING the allowed groups *)
+Theorem merged_same_full_subject tr m a cfg t1 t2 c q1 q2 :
+  mreach tr m ->
+  (forall t e s al, In (a, WEnter t (QSession e s al)) tr -> e = PValidate \/ e = PRefresh -> sort_strs al = cfg) ->
+  in_call (w_g (component m a)) t1 c -> in_call (w_g (component m a)) t2 c ->
+  In (a, WEnter t1 q1) tr -> In (a, WEnter t2 q2) tr ->
+  wf_question q1 = true -> wf_question q2 = true -> guard q1 = true -> guard q2 = true ->
+  service_of (q_endpoint q1) = service_of (q_endpoint q2) ->
+  subject_of q1 = subject_of q2 /\ allowed_of q1 = allowed_of q2.
+Proof.
+  intros H Hcfg I1 I2 E1 E2 W1 W2 G1 G2 Sv. pose proof (mreach_project _ _ H a) as Hw.
+  assert (subject_of q1 = subject_of q2) as Hs.
+  { apply (merged_same_subject (project a tr) (component m a) t1 t2 c q1 q2); auto; apply in_project; assumption. }
+  split; [exact Hs|].
+  destruct q1 as [e1 s1 al1|e1 x1 g1|e1 k1], q2 as [e2 s2 al2|e2 x2 g2|e2 k2];
+    try discriminate Hs; try reflexivity; cbn [subject_of q_endpoint] in *.
+  - inversion Hs as [[Hn Htok]]. pose proof (endpoint_name_injective_per_service _ _ Sv Hn) as He. subst e2.
+    destruct e1; try reflexivity; cbn [allowed_of].
+    + rewrite (Hcfg _ _ _ _ E1), (Hcfg _ _ _ _ E2); auto.
+    + rewrite (Hcfg _ _ _ _ E1), (Hcfg _ _ _ _ E2); auto.
+  - inversion Hs as [[Hn Htok]]. apply endpoint_name_kind in Hn.
+    unfold wf_question in W1, W2. cbn [q_endpoint] in W1, W2. rewrite Hn in W1.
+    destruct (endpoint_kind e2); discriminate.
+  - inversion Hs as [[Hn Htok]]. apply endpoint_name_kind in Hn.
+    unfold wf_question in W1, W2. cbn [q_endpoint] in W1, W2. rewrite Hn in W1.
+    destruct (endpoint_kind e2); discriminate.
+Qed.
+
+(* ================= the execution log ================= *)
+Lemma run_log_snoc {R} (s : state R) acc tr e :
+  run_log s acc (tr ++ [e]) =
+  match run_log s acc tr with
+  | Some (s1, l) => match step s1 e with Some s' => Some (s', l ++ log_of s' e) | None => None end
+  | None => None
+  end.
+Proof.
+  revert s acc. induction tr as [|e0 tr IH]; intros s acc; simpl.
+  - destruct (step s e); reflexivity.
+  - destruct (step s e0); [apply IH | reflexivity].
+Qed.
+
+Lemma run_log_run {R} (s : state R) acc tr s' l : run_log s acc tr = Some (s', l) -> run s tr = Some s'.
+Proof.
+  revert s acc. induction tr as [|e tr IH]; intros s acc H; simpl in *.
+  - inversion H; reflexivity.
+  - destruct (step s e); [eapply IH; eauto | discriminate].
+Qed.
+
+Lemma run_run_log {R} (s : state R) acc tr s' : run s tr = Some s' -> exists l, run_log s acc tr = Some (s', l).
+Proof.
+  revert s acc. induction tr as [|e tr IH]; intros s acc H; simpl in *.
+  - inversion H; eauto.
+  - destruct (step s e); [apply IH; exact H | discriminate].
+Qed.
